@@ -474,6 +474,10 @@ char *FUNC(generate)(jwt_common_t *__cmd)
 	jwt->alg = config.alg;
 	jwt->key = config.key;
 
+	/* A key chosen by the callback brings its own alg, just like setkey */
+	if (jwt->alg == JWT_ALG_NONE && jwt->key)
+		jwt->alg = jwt->key->alg;
+
 	if (jwt_head_setup(jwt))
 		return NULL; // LCOV_EXCL_LINE
 
